@@ -20,6 +20,7 @@
 import Cog.Builder.FromASTLemmas
 import Cog.Builder.Safe
 import Cog.Builder.Witness
+import Cog.Builder.SrcEquiv
 namespace Cog.Builder
 open Cog.IR
 
@@ -192,5 +193,81 @@ theorem C16_total_partial (ss : Schemas) (hs : Safe ss = true) : ∃ bs, fromAST
 example : Safe optionalConstRefWitness = true := by decide
 example : Safe danglingWitness = true := by decide
 example : Safe cycleWitness = false := by decide
+
+/-! ### the source tie: the translated bodies of builder.go compute the model
+
+  `Cog.Gen.FromASTSrc` is regenerated from /repo/internal/ast/builder.go by /verif/extract/xfromast on
+  every run; `Cog.Builder.Src` is the semantics of its mini-language (trusted base stated there). -/
+
+open Cog.Builder.Src Cog.Gen.FromASTSrc in
+/-- `fieldIsRefToConcrete` and `structFieldToOption`: the translated bodies compute the model's
+    functions, for every schema set, fuel and field (panics / divergence included). -/
+theorem C16_src_helpers (fuel : Nat) (ss : Schemas) (f : Field) :
+    call fuel fieldIsRefToConcreteBody fieldIsRefToConcreteParams [.schemas ss, .fld f] =
+      liftB (fieldIsRefToConcrete ss fuel f) ∧
+    call fuel structFieldToOptionBody structFieldToOptionParams [.fld f] = optOut (structFieldToOption f) :=
+  ⟨src_fieldIsRefToConcrete fuel ss f, src_structFieldToOption fuel f⟩
+
+open Cog.Builder.Src Cog.Gen.FromASTSrc in
+/-- `structObjectToBuilder`: the translated body (field loop with its three tests, `continue`s and
+    appends) computes the model's `structObjectToBuilder` for every schema set, schema and object. -/
+theorem C16_src_structObjectToBuilder (fuel : Nat) (ss : Schemas) (s : Schema) (o : Obj) :
+    call fuel structObjectToBuilderBody structObjectToBuilderParams [.schemas ss, .schema s, .obj o] =
+      builderOut (structObjectToBuilder ss fuel s o) :=
+  src_structObjectToBuilder fuel ss s o
+
+open Cog.Builder.Src Cog.Gen.FromASTSrc in
+/-- `FromAST`: the translated body (range over the schemas, `Iterate` callback with its early
+    `return`) computes the model's `fromAST` for every schema set. -/
+theorem C16_src_fromAST (ss : Schemas) :
+    call (fuelFor ss) fromASTBody fromASTParams [.schemas ss] = buildersOut (fromAST ss) :=
+  src_fromAST ss
+
+open Cog.Builder.Src Cog.Gen.FromASTSrc in
+/-- Summary: the C16 theorems about `fromAST` are theorems about the current source text of
+    builder.go — whenever the translated `FromAST` returns builders `bs`, they are in order exactly one
+    per struct-resolving object, and in each of them every field is covered exactly once, nothing extra
+    (here instantiated with `C16_which` and `C16_cover`). -/
+theorem C16_source_refines_model (ss : Schemas) (bs : Builders)
+    (h : call (fuelFor ss) fromASTBody fromASTParams [.schemas ss] = .ok (.builders bs)) :
+    fromAST ss = .ok bs ∧
+    All2 (fun (b : Builder) (so : Schema × Obj) => b.for_ = so.2 ∧ b.pkg = so.1.pkg ∧ b.name = so.2.name)
+      bs ((allObjects ss).filter fun so => resolvesToStruct ss so.2.ty) ∧
+    ∀ b ∈ bs, ∃ fs, structFieldsOf ss b.for_.ty = some fs ∧ Covered (codeClass ss) fs b := by
+  have h2 := C16_src_fromAST ss
+  rw [h] at h2
+  have hm : fromAST ss = .ok bs := by
+    cases hf : fromAST ss <;> simp [hf, Src.buildersOut] at h2
+    subst h2; rfl
+  exact ⟨hm, C16_which ss bs hm, C16_cover ss bs hm⟩
+
+namespace SrcWitness
+open Cog.Builder.Src Cog.Gen.FromASTSrc
+
+/-- non-vacuity: on the `optionalConstRefWitness` schemas (a constant object and a struct with one
+    optional reference to it) the translated `FromAST` returns one builder with one option … -/
+def run (ss : Schemas) : Nat × Nat × Nat :=
+  match call (fuelFor ss) fromASTBody fromASTParams [.schemas ss] with
+  | .ok (.builders bs) => (bs.length, (bs.map (·.options.length)).sum, (bs.map (·.constructor.assignments.length)).sum)
+  | _ => (0, 0, 0)
+
+def concreteField : Field := { name := "c", ty := .scalar "string" (.str "x") [] {}, required := true }
+def plainField : Field := { name := "a", ty := .scalar "string" .nil [] { dflt := .str "d" }, required := true }
+def twoFields : Schemas :=
+  [{ pkg := "p", objects := [("S", { name := "S", ty := .struct [concreteField, plainField] [] none {},
+                                      selfPkg := "p", selfName := "S" })] }]
+end SrcWitness
+
+open Cog.Builder.Src Cog.Gen.FromASTSrc SrcWitness in
+/-- non-vacuity of `C16_source_refines_model` (the hypothesis is satisfiable: the translated program
+    returns builders) and of the `C16_src_*` equations (both sides are `.ok`, not stuck): one builder,
+    one option, one constructor constant; an alias cycle diverges in the translated program too. -/
+example : run optionalConstRefWitness = (1, 1, 0) ∧ run twoFields = (1, 1, 1) ∧
+    (match call (fuelFor cycleWitness) fromASTBody fromASTParams [.schemas cycleWitness] with
+      | .err e => e == "diverge" | _ => false) = true ∧
+    (∃ o, call 1 structFieldToOptionBody structFieldToOptionParams [.fld plainField] = .ok (.opt o) ∧
+      o.dflt = some [.str "d"]) := by
+  refine ⟨by decide +kernel, by decide +kernel, by decide +kernel, ?_⟩
+  · rw [(C16_src_helpers 1 [] plainField).2]; exact ⟨_, rfl, rfl⟩
 
 end Cog.Builder
